@@ -165,10 +165,12 @@ def parse_functions(text):
             elif (ln.startswith("const ") or ln.startswith("static ")) and not header.rstrip().endswith("{"):
                 pass
             elif ln.startswith("const ") or ln.startswith("static "):
-                m = re.match(r"(?:const|static(?: mut)?) (.*?): (.*?) = \{$", header)
-                if m:
-                    f = Function(m.group(1), [], m.group(2), body, header)
-                    consts[m.group(1)] = f
+                if header.rstrip().endswith(" = {"):
+                    head = re.sub(r"^(?:const|static(?: mut)?) ", "", header.rstrip()[:-4])
+                    kk = head.rfind(": ")
+                    if kk > 0:
+                        f = Function(head[:kk], [], head[kk + 2:], body, header)
+                        consts[head[:kk]] = f
             elif ln.startswith("promoted["):
                 # promoted[0] in path::fn: TYPE = {
                 m = re.match(r"promoted\[(\d+)\] in (.*?): (.*) = \{$", header)
